@@ -69,7 +69,8 @@ class C07(Check):
                    'prefix_query_without_finish')
     PROBES = ('size_field_split_across_chunks', 'prefix_before_size_field',
               'prefix_between_field_and_carrier', 'declared_zero',
-              'declared_ge_2_63', 'vhdx_full_tables', 'single_chunk')
+              'declared_ge_2_63', 'vhdx_full_tables', 'single_chunk',
+              'query_mid_stream')
 
     def gen(self, st, tier, index, total):
         rng = st('content')
@@ -93,6 +94,22 @@ class C07(Check):
                 s['order'] = order
                 # the caller says which format it expects (the image's own)
                 s['expected'] = st('order').random() < 0.5
+            qrng = st('queries')
+            if qrng.random() < 0.3:
+                # the caller looks at the inspector while the stream is
+                # still flowing (format, size, safety verdict): looking must
+                # not change what the size turns out to be
+                nch = streams.n_chunks(r)
+                if nch:
+                    q = {}
+                    for _ in range(qrng.randint(1, 3)):
+                        at = qrng.randrange(min(nch, 4)) \
+                            if qrng.random() < 0.5 else qrng.randrange(nch)
+                        q[str(at)] = qrng.sample(imgsim.QUERIES,
+                                                 qrng.randint(1, 3))
+                        if qrng.random() < 0.5 and 'safety' not in q[str(at)]:
+                            q[str(at)].append('safety')
+                    s['q'] = q
             scheds.append(s)
         prefixes = []
         if info['fmt'] in PREFIX_FORMATS and info.get('size_field'):
@@ -124,6 +141,7 @@ class C07(Check):
         stats = {'faults': {}, 'probes': {}, 'families': {}, 'sim': {},
                  'distinct': []}
         fa, pr = stats['faults'], stats['probes']
+        self._pr = pr
 
         def bump(d, k, v=1):
             d[k] = d.get(k, 0) + v
@@ -233,7 +251,8 @@ class C07(Check):
             insp = m.ALL_FORMATS[fmt]()
             pos = 0
             err = False
-            for nbytes in sizes:
+            qp = s.get('q') or {}
+            for ci, nbytes in enumerate(sizes):
                 chunk = data[pos:pos + nbytes]
                 pos += nbytes
                 if not err:
@@ -242,6 +261,10 @@ class C07(Check):
                     except Exception:
                         err = True
                 trace.append((pos, imgsim.q_attr(insp, 'virtual_size')))
+                for x in qp.get(str(ci), ()):
+                    self._pr['query_mid_stream'] = \
+                        self._pr.get('query_mid_stream', 0) + 1
+                    imgsim.do_query(insp, x)
             insp.finish()
             return imgsim.q_attr(insp, 'virtual_size'), trace
         from sim.streams import SimSource
@@ -276,9 +299,13 @@ class C07(Check):
                 # compare the final size with
                 aborted = True
                 break
-            idx += 1
             pos += len(chunk)
             trace.append((pos, imgsim.q_attr(insp, 'virtual_size')))
+            for x in (s.get('q') or {}).get(str(idx), ()):
+                self._pr['query_mid_stream'] = \
+                    self._pr.get('query_mid_stream', 0) + 1
+                imgsim.do_query(insp, x)
+            idx += 1
         w.close()
         if aborted:
             return None, trace
